@@ -5741,8 +5741,12 @@ impl BytecodeVM {
                 }
 
                 // Handle __proto__ special property - return prototype
+                // (an own data property of that name, e.g. from JSON.parse, shadows it)
                 if let JsValue::String(k) = key
                     && k.as_str() == "__proto__"
+                    && !obj_ref
+                        .borrow()
+                        .has_own_property(&PropertyKey::String(k.cheap_clone()))
                 {
                     return Ok(Guarded::unguarded(
                         obj_ref
@@ -5894,8 +5898,12 @@ impl BytecodeVM {
                 }
 
                 // Handle __proto__ special property - set prototype
+                // (an own data property of that name, e.g. from JSON.parse, shadows it)
                 if let JsValue::String(k) = key
                     && k.as_str() == "__proto__"
+                    && !obj_ref
+                        .borrow()
+                        .has_own_property(&PropertyKey::String(k.cheap_clone()))
                 {
                     match &value {
                         JsValue::Object(proto) => {
